@@ -14,7 +14,7 @@ def design(work, name, off=None, steps=8, blocks=1, invs=INVS):
     return vlib.tlc(os.path.join(work, name), "Slash", vlib.cfg_text(constants=c, invariants=invs, view="view"), workers=8, timeout=1500)
 
 
-def run(v, work, tier, sd, nodex):
+def run(v, work, tier, sd, nodex, pid="C14"):
     rd = design(work, "sl", steps=8 if tier == "quick" else 9, blocks=1 if tier == "quick" else 2)
     if rd.violated or not rd.finished:
         raise vlib.Infra("Slash.tla fails: %s %s" % (rd.violated, rd.error))
@@ -39,22 +39,36 @@ def run(v, work, tier, sd, nodex):
     consumed = max(r.distinct - 1, 0)
     if r.error or not r.finished or consumed < len(recs):
         raise vlib.Infra("SlashTrace stopped at line %d of %d: %s\n%s" % (consumed + 1, len(recs), r.error, r.out[-1000:]))
-    over, dev, wedge = [], [], []
+    kinds = {"over-cap": [], "more-than-ordered": [], "valid-refused": [], "deviation": [], "wedge": []}
     for m in re.finditer(r'<<\s*"VIOL",\s*(\d+),\s*"([a-z-]+)"\s*>>', r.out):
-        {"over-cap": over, "deviation": dev, "wedge": wedge}[m.group(2)].append(recs[int(m.group(1)) - 1])
-    brief = lambda e: json.dumps({k: e[k] for k in ("kind", "run", "height", "max", "before", "slashes", "after", "failing", "included", "err")})[:900]
-    if over:
-        v.violation("over-cap:" + over[0]["kind"], "within one block a committee slashed a validator beyond the per-committee cap (%d block state(s), %s; first: %s)"
-                    % (len(over), "the state a proposer's header commits to" if over[0]["kind"] == "proposal" else "the committed state", brief(over[0])), {"line": over[0]})
-    for e in dev[:2]:
-        v.divergence("a block's slashes stay within the cap but are not what Slash.tla computes: " + brief(e))
+        kinds[m.group(2)].append(recs[int(m.group(1)) - 1])
+    over, dev, wedge = kinds["over-cap"], kinds["deviation"], kinds["wedge"]
+    brief = lambda e: json.dumps({k: e[k] for k in ("kind", "run", "height", "max", "before", "slashes", "after", "failing", "included", "validSubmitted", "validIncluded", "err")})[:900]
+    where = lambda e: "the state a proposer's header commits to" if e["kind"] == "proposal" else "the committed state"
+    text = {"over-cap": "within one block a committee slashed a validator beyond the per-committee cap",
+            "more-than-ordered": "a validator lost more stake than the block's new evidence orders (a validator / height pair slashed again, or a slash nobody ordered)",
+            "valid-refused": "a certificate-results transaction that reports only new evidence was not executed: an earlier transaction that FAILED left something behind",
+            "deviation": "the stake / committees after the block are not what applying the block's successful transactions gives"}
+    # C14 owns the cap and at-most-once; C07 (atomicity) owns what failed transactions leave behind
+    mine = {"C14": ["over-cap", "more-than-ordered"], "C07": ["more-than-ordered", "valid-refused", "deviation"]}[pid]
+    for k in mine:
+        if kinds[k]:
+            e = kinds[k][0]
+            v.violation("slash:%s:%s" % (k, e["kind"]), "%s (%d block state(s), %s; first: %s)" % (text[k], len(kinds[k]), where(e), brief(e)), {"line": e})
+    for k in ("over-cap", "more-than-ordered", "valid-refused", "deviation"):
+        if k not in mine:
+            for e in kinds[k][:2]:
+                v.divergence("slash driver (%s, judged by another property's check): %s" % (k, brief(e)))
     for e in wedge[:2]:
-        v.divergence("slash driver: a block could not be produced / committed (not a C14 verdict): " + brief(e))
+        v.divergence("slash driver: a block could not be produced / committed (not a %s verdict): %s" % (pid, brief(e)))
+    fatal = sum(len(kinds[k]) for k in mine)
     capped = sum(1 for e in recs if e["capOn"] and e["kind"] == "block" and any(len(b["committees"]) > len(a["committees"]) for b in e["before"] for a in e["after"] if a["name"] == b["name"]))
-    if not over and (capped == 0 or len(wedge) * 2 > runs):
+    if not fatal and (capped == 0 or len(wedge) * 2 > runs):
         raise vlib.Infra("slash driver: the cap was reached in %d blocks, %d runs wedged: nothing to judge" % (capped, len(wedge)))
     return {"slash_states": rd.distinct, "slash_guards_confirmed_necessary": GUARDS, "slash_block_states_validated": consumed,
             "slash_orders": sum(len(e["slashes"]) for e in recs if e["kind"] == "block"), "slash_blocks_reaching_cap": capped,
             "slash_blocks_with_failing_tx_between": sum(1 for e in recs if e["kind"] == "block" and e["failing"] and len(e["slashes"]) > 1),
             "slash_runs_protocol_v1": len({e["run"] for e in recs if not e["capOn"]}), "slash_deviations": len(dev), "slash_wedges": len(wedge),
-            "slash_violation_classes": {"over-cap": len(over)}}
+            "slash_replayed_pairs_offered": sum(e["replayed"] for e in recs if e["kind"] == "block"),
+            "slash_valid_transactions": sum(e["validSubmitted"] for e in recs if e["kind"] == "block"),
+            "slash_violation_classes": {k: len(kinds[k]) for k in mine}}
